@@ -1,7 +1,7 @@
 """Per-property metadata used by ./check for evidence files and MANIFEST.json."""
 
 HOOK_COMMITS = []
-FIX_COMMITS = ['0a1810c', 'a823fe8', '611b765', '43d434c', 'bd77cd5', '75ae538', '463f78f', '94ec477', '5158e08', 'de159c6']
+FIX_COMMITS = ['0a1810c', 'a823fe8', '611b765', '43d434c', 'bd77cd5', '75ae538', '463f78f', '94ec477', '5158e08', 'de159c6', '2ad7ab4']
 
 REAL = ["nhooyr.io/websocket (all non-js code, both endpoints where libpair)", "bufio", "compress/flate", "context", "time (fake clock from testing/synctest)"]
 STUB = ["transport (simrt.simnet)", "handshake plumbing (fake RoundTripper / hijacker, no bytes on the wire)"]
@@ -143,6 +143,15 @@ META = {
         design_ref="DESIGN.md 6 C07",
         rule="run = one tape: (slots, generations per slot, per connection role/negotiation, per message size, compression, fragmentation, action, re-read count, abandon offset, read buffer; chunk policies; schedule). Non-trivial = every run; distinct = distinct event-log SHA-256.",
         real=REAL, stub=STUB + RAW, assumptions=COMMON_ASSUME, race=dict(quick=600, thorough=25000),
+    ),
+    "C05": dict(
+        level="exploration",
+        level_text="Seeded simulation of one real endpoint used concurrently by 2-5 writers (Write and two-chunk Writer, messages tagged with writer id and sequence number in every 8-byte word), 0-2 pingers and its own reader, while a closer fires at a drawn scheduler step with Close, CloseNow, expiry of the peer reader's context, or a peer-initiated Close - against a second real endpoint (60%) or a scripted raw peer, both roles, all compression modes and thresholds, with a transport that blocks, splits and back-pressures writes. Oracles: the emitted byte stream parses as conformant frames with no interleaving of data messages (reference decoder); every message received equals exactly one written message, none twice, per-writer sequence increasing; a read interrupted by the close has only handed over a prefix of one written message. The same seeds run on the race-detector build; any DATA RACE report with a library frame is a violation. With -tags verif the library's yield hooks split the windows inside lock hand-over and close. Sampling of interleavings, not proof.",
+        level_note="GOMAXPROCS=1: weak-memory effects are visible only as happens-before races to the race detector on explored schedules. Delivery of everything written is demanded only when nothing interrupted the writers.",
+        technique="deterministic simulation: seeded interleaving of concurrent API users with a close at an arbitrary step; tagged-message and wire oracles; race-detector build",
+        design_ref="DESIGN.md 6 C05",
+        rule="run = one tape: (pair/raw, role, modes and thresholds, writers with sizes and API, pingers, closer kind and firing step, pipe capacity and write chunking, stickiness, every scheduling choice). Non-trivial = every run; distinct = distinct event-log SHA-256.",
+        real=REAL, stub=STUB + RAW, assumptions=COMMON_ASSUME, race=dict(quick=600, thorough=30000),
     ),
 }
 
